@@ -262,17 +262,19 @@ class Query:
         return d
 
 
-def build_native(name):
-    """Build /verif/native/<name> (a cargo bin with a path dependency on /repo) and return the binary path."""
+def build_native(name, profile="release"):
+    """Build /verif/native/<name> (a cargo bin with a path dependency on /repo) and return the binary path.
+    profile "dev" = the profile of `cargo test` / `cargo build` (debug assertions and overflow checks on)."""
     d = os.path.join(NATIVE, name)
     lock = os.path.join(d, "Cargo.lock")
     import shutil
     shutil.copyfile(os.path.join(REPO, "Cargo.lock"), lock)
-    rc, out, wall, to = run(["cargo", "build", "--release"], cwd=d, timeout=1800,
+    cmd = ["cargo", "build"] + (["--release"] if profile == "release" else [])
+    rc, out, wall, to = run(cmd, cwd=d, timeout=1800,
                             env=env_offline({"CARGO_TARGET_DIR": os.path.join(BUILD, "native")}))
     if rc != 0:
         raise Inconclusive("native driver %s does not build against /repo: %s" % (name, out[-800:]))
-    return os.path.join(BUILD, "native", "release", name)
+    return os.path.join(BUILD, "native", "release" if profile == "release" else "debug", name)
 
 
 def run_native(binary, lines, timeout=120):
